@@ -68,7 +68,7 @@ class Coupler(ops.Qid):
 
     def _comparison_key(self):
         if self._comp_key is None:
-            self._comp_key = (self._qubit0._comparison_key(), self.qubit1._comparison_key())
+            self._comp_key = (self._qubit0._cmp_tuple(), self._qubit1._cmp_tuple())
         return self._comp_key
 
     @property
